@@ -21,6 +21,22 @@ theorem minTombstone_eq (s : Nat) (hs : 1 ≤ s ∧ s ≤ 8) : minTombstone s = 
 theorem minTombstone_spec (s : Nat) (hs : 1 ≤ s ∧ s ≤ 8) : minTombstone s = tombstone s := by
   rw [minTombstone_eq s hs]; rfl
 
+theorem addSized_eq (a len s : Nat) (hs : s ≤ 8) :
+    addSized a len s = if a + len < 2 ^ (8 * s) then .ok (a + len) else .err .rAddressOverflow := by
+  unfold addSized onesSized
+  have hp : 0 < 2 ^ (8 * s) := Nat.pow_pos (by decide)
+  have hle : 2 ^ (8 * s) ≤ 2 ^ 64 := Nat.pow_le_pow_right (by decide) (by omega)
+  by_cases h : a + len < 2 ^ (8 * s)
+  · have h1 : ¬ 2 ^ 64 ≤ a + len := by omega
+    have h2 : ¬ 2 ^ (8 * s) - 1 < a + len := by omega
+    simp only [h, h1, h2, if_true, if_false]
+  · simp only [h, if_false]
+    split
+    · rfl
+    · have h2 : 2 ^ (8 * s) - 1 < a + len := by omega
+      simp only [h2, if_true]
+
+
 /-! ## everything `convert_raw` lets through is non-empty and below the tombstones -/
 
 theorem keepRange_item (s base b e : Nat) (d : Bytes) (base' : Nat) (it : Item)
@@ -1032,7 +1048,8 @@ theorem dieRangesCore_ranges_wins (u : UnitCtx) (secs : Sections) (pre post : At
   simp only [ho, Out.bind_ok]
   cases unitRangesAt u secs o <;> rfl
 
-/-- without `DW_AT_ranges`: the single range `low_pc .. high_pc` or `low_pc .. low_pc + size` -/
+/-- without `DW_AT_ranges`: the single range `low_pc .. high_pc` or `low_pc .. low_pc + size`,
+kept only if it is non-empty and below the tombstones -/
 theorem dieRangesCore_single (u : UnitCtx) (secs : Sections) (attrs : Attrs)
     (hb : ∀ a ∈ attrs, Benign a) :
     dieRangesCore u secs attrs =
@@ -1041,8 +1058,10 @@ theorem dieRangesCore_single (u : UnitCtx) (secs : Sections) (attrs : Attrs)
       | none => .ok (.single none)
       | some b =>
         match acc.size with
-        | some sz => if 2 ^ 64 ≤ b + sz then .err .rAddressOverflow else .ok (.single (some (b, b + sz)))
-        | none => .ok (.single (acc.highPc.map fun e => (b, e))) := by
+        | some sz =>
+          if 2 ^ 64 ≤ b + sz then .err .rAddressOverflow
+          else .ok (.single (keepSingle u.cfg.addrSize (some (b, b + sz))))
+        | none => .ok (.single (keepSingle u.cfg.addrSize (acc.highPc.map fun e => (b, e)))) := by
   unfold dieRangesCore
   have := dieRangesLoop_benign u secs attrs [] {} hb
   rw [List.append_nil] at this
@@ -1147,6 +1166,45 @@ theorem dieRangesLoop_list_items (u : UnitCtx) (secs : Sections) (attrs : Attrs)
     | loclistsBase => simp only [dieRangesLoop] at h; exact ih _ evs h
     | other => simp only [dieRangesLoop] at h; exact ih _ evs h
 
+theorem keepSingle_some (s : Nat) (r : Option (Nat × Nat)) (b e : Nat)
+    (h : keepSingle s r = some (b, e)) : r = some (b, e) ∧ b < e ∧ b < minTombstone s := by
+  cases r with
+  | none => simp [keepSingle] at h
+  | some p =>
+    obtain ⟨b', e'⟩ := p
+    simp only [keepSingle] at h
+    split at h
+    · rename_i hk
+      simp only [Option.some.injEq, Prod.mk.injEq] at h
+      obtain ⟨rfl, rfl⟩ := h
+      exact ⟨rfl, hk.2, hk.1⟩
+    · simp at h
+
+/-- the single range of `die_ranges`, when there is one, is non-empty and below the tombstones -/
+theorem dieRangesCore_single_items (u : UnitCtx) (secs : Sections) (attrs : Attrs) (b e : Nat)
+    (h : dieRangesCore u secs attrs = .ok (.single (some (b, e)))) :
+    b < e ∧ b < minTombstone u.cfg.addrSize := by
+  unfold dieRangesCore at h
+  cases hl : dieRangesLoop u secs attrs {} with
+  | ok r =>
+    rw [hl] at h
+    cases r with
+    | inr evs' => simp at h
+    | inl acc =>
+      simp only [Out.bind_ok] at h
+      split at h
+      · simp at h
+      · split at h
+        · split at h
+          · simp at h
+          · simp only [Out.pure_eq, Out.ok.injEq, RangesResult.single.injEq] at h
+            exact (keepSingle_some _ _ _ _ h).2
+        · simp only [Out.pure_eq, Out.ok.injEq, RangesResult.single.injEq] at h
+          exact (keepSingle_some _ _ _ _ h).2
+  | err x => rw [hl] at h; simp at h
+  | panic w => rw [hl] at h; simp at h
+  | diverge => rw [hl] at h; simp at h
+
 theorem dieRangesCore_list_items (u : UnitCtx) (secs : Sections) (attrs : Attrs)
     (evs : List (Ev Item)) (h : dieRangesCore u secs attrs = .ok (.list evs)) :
     ∀ it, Ev.item it ∈ evs → it.b < it.e ∧ it.b < minTombstone u.cfg.addrSize := by
@@ -1169,6 +1227,248 @@ theorem dieRangesCore_list_items (u : UnitCtx) (secs : Sections) (attrs : Attrs)
   | err e => rw [hl] at h; simp at h
   | panic w => rw [hl] at h; simp at h
   | diverge => rw [hl] at h; simp at h
+
+
+/-- every range `die_ranges` / `unit_ranges` yields — list path and single path — is non-empty and
+begins below the tombstones -/
+theorem dieRanges_items (u : UnitCtx) (secs : Sections) (attrs : Attrs) (evs : List (Ev Item))
+    (h : dieRanges u secs attrs = .ok evs) :
+    ∀ it, Ev.item it ∈ evs → it.b < it.e ∧ it.b < minTombstone u.cfg.addrSize := by
+  unfold dieRanges at h
+  cases hc : dieRangesCore u secs attrs with
+  | ok r =>
+    rw [hc] at h
+    simp only [Out.bind_ok, Out.pure_eq, Out.ok.injEq] at h
+    subst h
+    cases r with
+    | list evs' => exact dieRangesCore_list_items u secs attrs evs' hc
+    | single o =>
+      cases o with
+      | none => intro it hit; simp [RangesResult.events] at hit
+      | some p =>
+        obtain ⟨b, e⟩ := p
+        intro it hit
+        simp only [RangesResult.events, List.mem_singleton, Ev.item.injEq] at hit
+        subst hit
+        exact dieRangesCore_single_items u secs attrs b e hc
+  | err x => rw [hc] at h; simp at h
+  | panic w => rw [hc] at h; simp at h
+  | diverge => rw [hc] at h; simp at h
+
+/-! ## totality of the unit-level helpers -/
+
+theorem getOffset_normal (c : Cfg) (sec : Bytes) (base i : Nat) : (getOffset c sec base i).Normal := by
+  unfold getOffset
+  split
+  · simp [Out.Normal]
+  · simp only; split
+    · simp [Out.Normal]
+    · split
+      · simp [Out.Normal]
+      · generalize List.drop (i * c.format.wordSize) (List.drop base sec) = r
+        cases hf : c.format with
+        | dwarf32 =>
+          simp only [readWord, readFixed_eq]
+          split
+          · simp only [Out.bind_ok]; split <;> simp [Out.Normal]
+          · simp [Out.Normal]
+        | dwarf64 =>
+          simp only [readWord, readFixed_eq]
+          split
+          · simp only [Out.bind_ok, offsetFromU64]
+            split
+            · simp only [Out.bind_ok, Out.pure_eq]; split <;> simp [Out.Normal]
+            · simp [Out.Normal]
+          · simp [Out.Normal]
+
+theorem cookedAll_normal (k : Kind) (c : Cfg) (f : Fmt) (addr : Bytes) (ab base : Nat) (bs : Bytes) :
+    (cookedAll k c f addr ab base bs).Normal := by
+  obtain ⟨raw, h1, _⟩ := rawFuel_ok k c f (bs.length + 1) bs (by omega)
+  obtain ⟨out, h3, _⟩ := cook_ok c addr ab raw base
+  unfold cookedAll rawAll
+  rw [h1]; simp only [Out.bind_ok, h3, Out.Normal]
+
+theorem cookedAt_normal (k : Kind) (c : Cfg) (dwo : Bool) (legacy v5 : Bytes) (offset base : Nat)
+    (addr : Bytes) (ab : Nat) : (cookedAt k c dwo legacy v5 offset base addr ab).Normal := by
+  unfold cookedAt
+  simp only
+  split
+  · split
+    · simp [Out.Normal]
+    · exact cookedAll_normal _ _ _ _ _ _ _
+  · split
+    · simp [Out.Normal]
+    · exact cookedAll_normal _ _ _ _ _ _ _
+
+theorem attrAddress_normal (u : UnitCtx) (secs : Sections) (v : AttrVal) :
+    (attrAddress u secs v).Normal := by
+  cases v <;> simp only [attrAddress, Out.Normal]
+  exact normal_bind _ _ (getAddress_normal _ _ _ _) (fun a => by simp [Out.Normal])
+
+theorem attrRangesOffset_normal (u : UnitCtx) (secs : Sections) (v : AttrVal) :
+    (attrRangesOffset u secs v).Normal := by
+  cases v <;> simp only [attrRangesOffset, Out.Normal]
+  exact normal_bind _ _ (getOffset_normal _ _ _ _) (fun a => by simp [Out.Normal])
+
+theorem dieRangesLoop_normal (u : UnitCtx) (secs : Sections) (attrs : Attrs) :
+    ∀ acc, (dieRangesLoop u secs attrs acc).Normal := by
+  induction attrs with
+  | nil => intro acc; simp [dieRangesLoop, Out.Normal]
+  | cons a rest ih =>
+    intro acc
+    obtain ⟨n, v⟩ := a
+    have A := attrAddress_normal u secs
+    cases n with
+    | lowPc =>
+      rw [dieRangesLoop]
+      refine normal_bind _ _ (A v) (fun oa => ?_)
+      cases oa with
+      | none => simp [Out.Normal]
+      | some a => exact ih _
+    | highPc =>
+      cases v with
+      | udata val => rw [dieRangesLoop]; exact ih _
+      | addr x => simp only [dieRangesLoop, attrAddress, Out.bind_ok]; exact ih _
+      | addrx i =>
+        rw [dieRangesLoop]
+        · refine normal_bind _ _ (A _) (fun oa => ?_)
+          cases oa with
+          | none => simp [Out.Normal]
+          | some a => exact ih _
+        · simp
+      | secOffset o => simp [dieRangesLoop, attrAddress, Out.Normal]
+      | listx i => simp [dieRangesLoop, attrAddress, Out.Normal]
+      | other => simp [dieRangesLoop, attrAddress, Out.Normal]
+    | ranges =>
+      rw [dieRangesLoop]
+      refine normal_bind _ _ (attrRangesOffset_normal u secs v) (fun oo => ?_)
+      cases oo with
+      | none => exact ih _
+      | some o =>
+        exact normal_bind _ _ (cookedAt_normal _ _ _ _ _ _ _ _ _) (fun evs => by simp [Out.Normal])
+    | location => simp only [dieRangesLoop]; exact ih _
+    | addrBase => simp only [dieRangesLoop]; exact ih _
+    | rnglistsBase => simp only [dieRangesLoop]; exact ih _
+    | loclistsBase => simp only [dieRangesLoop]; exact ih _
+    | other => simp only [dieRangesLoop]; exact ih _
+
+theorem dieRangesCore_normal (u : UnitCtx) (secs : Sections) (attrs : Attrs) :
+    (dieRangesCore u secs attrs).Normal := by
+  unfold dieRangesCore
+  refine normal_bind _ _ (dieRangesLoop_normal u secs attrs {}) (fun r => ?_)
+  cases r with
+  | inr evs => simp [Out.Normal]
+  | inl acc =>
+    simp only
+    split
+    · simp [Out.Normal]
+    · split
+      · split <;> simp [Out.Normal]
+      · simp [Out.Normal]
+
+theorem attrLocations_items (u : UnitCtx) (secs : Sections) (v : AttrVal) (evs : List (Ev Item))
+    (h : attrLocations u secs v = .ok (some evs)) :
+    ∀ it, Ev.item it ∈ evs → it.b < it.e ∧ it.b < minTombstone u.cfg.addrSize := by
+  unfold attrLocations at h
+  cases ho : attrLocationsOffset u secs v with
+  | ok oo =>
+    rw [ho] at h
+    cases oo with
+    | none => simp at h
+    | some o =>
+      simp only [Out.bind_ok] at h
+      cases hu : unitLocationsAt u secs o with
+      | ok evs' =>
+        rw [hu] at h
+        simp only [Out.bind_ok, Out.pure_eq, Out.ok.injEq, Option.some.injEq] at h
+        subst h
+        exact cookedAt_items _ _ _ _ _ _ _ _ _ _ hu
+      | err e => rw [hu] at h; simp at h
+      | panic w => rw [hu] at h; simp at h
+      | diverge => rw [hu] at h; simp at h
+  | err e => rw [ho] at h; simp at h
+  | panic w => rw [ho] at h; simp at h
+  | diverge => rw [ho] at h; simp at h
+
+
+/-! ## the bases of a unit -/
+
+/-- the value of the last attribute named `n` that is a section offset -/
+def lastSec (n : AttrName) : Attrs → Option Nat
+  | [] => none
+  | (m, v) :: rest =>
+    match lastSec n rest with
+    | some o => some o
+    | none => if m = n then (match v with | .secOffset o => some o | _ => none) else none
+
+theorem basesStep_cfg (st : UnitCtx × Option AttrVal) (a : AttrName × AttrVal) :
+    (basesStep st a).1.cfg = st.1.cfg ∧ (basesStep st a).1.dwo = st.1.dwo ∧
+      (basesStep st a).1.lowPc = st.1.lowPc := by
+  obtain ⟨n, v⟩ := a
+  cases n <;> cases v <;> simp [basesStep]
+
+theorem foldl_bases (root : Attrs) : ∀ (st : UnitCtx × Option AttrVal),
+    let r := root.foldl basesStep st
+    r.1.addrBase = (lastSec .addrBase root).getD st.1.addrBase ∧
+    r.1.rnglistsBase = (lastSec .rnglistsBase root).getD st.1.rnglistsBase ∧
+    r.1.loclistsBase = (lastSec .loclistsBase root).getD st.1.loclistsBase ∧
+    r.1.cfg = st.1.cfg ∧ r.1.dwo = st.1.dwo ∧ r.1.lowPc = st.1.lowPc := by
+  induction root with
+  | nil => intro st; simp [lastSec]
+  | cons a rest ih =>
+    intro st
+    have h := ih (basesStep st a)
+    simp only [List.foldl_cons] at h ⊢
+    obtain ⟨h1, h2, h3, h4, h5, h6⟩ := h
+    obtain ⟨c1, c2, c3⟩ := basesStep_cfg st a
+    refine ⟨?_, ?_, ?_, by rw [h4, c1], by rw [h5, c2], by rw [h6, c3]⟩
+    · rw [h1]; obtain ⟨n, v⟩ := a
+      simp only [lastSec]
+      cases lastSec .addrBase rest with
+      | some o => rfl
+      | none => cases n <;> cases v <;> simp [basesStep]
+    · rw [h2]; obtain ⟨n, v⟩ := a
+      simp only [lastSec]
+      cases lastSec .rnglistsBase rest with
+      | some o => rfl
+      | none => cases n <;> cases v <;> simp [basesStep]
+    · rw [h3]; obtain ⟨n, v⟩ := a
+      simp only [lastSec]
+      cases lastSec .loclistsBase rest with
+      | some o => rfl
+      | none => cases n <;> cases v <;> simp [basesStep]
+
+/-- the bases of a unit: the last base attribute given as a section offset, else the default -/
+theorem unitBases_bases (c : Cfg) (dwo : Bool) (secs : Sections) (root : Attrs) (u : UnitCtx)
+    (h : unitBases c dwo secs root = .ok u) :
+    u.addrBase = (lastSec .addrBase root).getD 0 ∧
+    u.rnglistsBase = (lastSec .rnglistsBase root).getD (defaultListsBase c dwo) ∧
+    u.loclistsBase = (lastSec .loclistsBase root).getD (defaultListsBase c dwo) ∧
+    u.cfg = c ∧ u.dwo = dwo := by
+  have hf := foldl_bases root (initialUnit c dwo, none)
+  simp only at hf
+  unfold unitBases at h
+  generalize List.foldl basesStep (initialUnit c dwo, none) root = r at h hf
+  obtain ⟨u0, low⟩ := r
+  simp only at h hf
+  obtain ⟨h1, h2, h3, h4, h5, _⟩ := hf
+  have key : u.addrBase = u0.addrBase ∧ u.rnglistsBase = u0.rnglistsBase ∧
+      u.loclistsBase = u0.loclistsBase ∧ u.cfg = u0.cfg ∧ u.dwo = u0.dwo := by
+    cases low with
+    | none => simp only [Out.ok.injEq] at h; subst h; exact ⟨rfl, rfl, rfl, rfl, rfl⟩
+    | some v =>
+      simp only at h
+      cases ha : attrAddress u0 secs v with
+      | ok oa =>
+        rw [ha] at h
+        cases oa with
+        | none => simp only [Out.bind_ok, Out.pure_eq, Out.ok.injEq] at h; subst h; exact ⟨rfl, rfl, rfl, rfl, rfl⟩
+        | some a => simp only [Out.bind_ok, Out.pure_eq, Out.ok.injEq] at h; subst h; exact ⟨rfl, rfl, rfl, rfl, rfl⟩
+      | err e => rw [ha] at h; simp at h
+      | panic w => rw [ha] at h; simp at h
+      | diverge => rw [ha] at h; simp at h
+  obtain ⟨k1, k2, k3, k4, k5⟩ := key
+  exact ⟨by rw [k1, h1]; rfl, by rw [k2, h2]; rfl, by rw [k3, h3]; rfl, by rw [k4, h4]; rfl, by rw [k5, h5]; rfl⟩
 
 
 end Gimli.Lists
